@@ -89,7 +89,7 @@ def classify_causal(seg, att, pair):
 
 def case_class(seg):
     cid = str(seg[0].get("id", "?"))
-    return re.sub(r"[0-9]+$", "", cid) if cid.startswith("sim") else cid
+    return re.sub(r"[0-9]+$", "", cid) if cid.startswith(("sim", "cex")) else cid
 
 
 # ----------------------------------------------------------------------------- the check
@@ -108,12 +108,12 @@ def run(chk):
         V.copy_specs(specsrc, d)
         return name, V.tlc(d, "MCVClock", cfg=cfg, workers=workers, timeout=TLC_T, deadlock=False), expect
 
-    def genjob(cfg, num, depth, seed):
+    def genjob(cfg, num, depth, seed, tag):
         d = os.path.join(chk.tmp, "gen-" + cfg)
         V.copy_specs(specsrc, d)
         res = V.tlc(d, "MCVClock", cfg=cfg, workers=1, timeout=TLC_T, deadlock=False,
                     simulate="num=%d" % num, depth=depth, seed=seed)
-        return "generator %s (-simulate num=%d seed=%d)" % (cfg, num, seed), res, "gen"
+        return "generator %s (-simulate num=%d seed=%d)" % (cfg, num, seed), res, "gen:" + tag
 
     def patjob():
         res = V.tlc(work, "TracePatterns", cfg="TracePatterns.cfg", workers=1, timeout=TLC_T, deadlock=False)
@@ -129,28 +129,36 @@ def run(chk):
             lambda: mcjob("MCVClock repaired protocol, TCP mailboxes with send-last sections (Causal)", "MCTcpQ.cfg", w),
             lambda: mcjob("MCVClock pinned protocol (expected: Causal violated on the model = DESIGN 8 #13)", "MCVarsPinned.cfg", w, True),
             lambda: mcjob("MCVClock TCP send followed by a witness (expected: Causal violated on the model; no small repair)", "MCTcpOpen.cfg", w, True),
-            lambda: genjob("Gen.cfg", 160 if quick else 1200, 80, chk.seed),
+            # random programs / schedules
+            lambda: genjob("Gen.cfg", 120 if quick else 1000, 80, chk.seed, "sim"),
+            # TLC's own counterexamples: behaviours on which the PINNED protocol model violates Causal
+            lambda: genjob("GenBadVars.cfg", 2500 if quick else 25000, 80, chk.seed, "cexVars"),
+            lambda: genjob("GenBadTcp.cfg", 2500 if quick else 25000, 80, chk.seed, "cexTcp"),
+            lambda: genjob("GenBadMix.cfg", 2500 if quick else 25000, 80, chk.seed, "cexMix"),
         ]
         if not quick:
             jobs += [
                 lambda: mcjob("MCVClock repaired, shared variables, 4 attempts with aborts", "MCVarsT.cfg", 4),
                 lambda: mcjob("MCVClock repaired, channel + local hop, 4 attempts", "MCChanT.cfg", 4),
                 lambda: mcjob("MCVClock repaired, TCP + channel + variable, send-last, 4 attempts with aborts", "MCTcpT.cfg", 4),
-                lambda: genjob("GenLong.cfg", 300, 140, chk.seed + 1),
+                lambda: genjob("GenLong.cfg", 300, 140, chk.seed + 1, "simLong"),
             ]
     sim_cases = []
     design_ok = True
-    with concurrent.futures.ThreadPoolExecutor(max_workers=4 if quick else 5) as ex:
+    with concurrent.futures.ThreadPoolExecutor(max_workers=5 if quick else 6) as ex:
         for name, res, expect in ex.map(lambda j: j(), jobs):
-            if expect == "gen":
+            if isinstance(expect, str) and expect.startswith("gen:"):
                 chk.add_tlc(name, res)
+                k = 0
                 for m in re.finditer(r'^"C18CASE (.*)"$', res.out, re.M):
                     try:
                         c = json.loads(json.loads('"' + m.group(1) + '"'))
                     except ValueError:
                         continue
-                    c["id"] = "sim%d" % (len(sim_cases) + 1)
+                    k += 1
+                    c["id"] = "%s%d" % (expect[4:], k)
                     sim_cases.append(c)
+                chk.notes.setdefault("generated", {})[expect[4:]] = k
             elif expect:
                 chk.tlc_jobs.append(res.summary(name))
                 chk.notes.setdefault("expected_model_counterexamples", {})[name] = bool(res.violation)
@@ -323,7 +331,7 @@ def run(chk):
                                   "text": res.violation or res.error or "not accepted"})
 
     # ------------------------------------------------------------------ evidence
-    for s in [x for x in segs if len(x) > 2][:2] + [x for x in segs if str(x[0].get("id", "")).startswith(("sim", "locksvc"))][-2:]:
+    for s in [x for x in segs if len(x) > 2][:2] + [x for x in segs if str(x[0].get("id", "")).startswith(("sim", "cex", "locksvc"))][-2:]:
         att = next((ln for ln in s if ln.get("e") == "att" and len(ln.get("ops", [])) > 2), None)
         if att:
             chk.sample({"case": s[0].get("id"), "recorder": s[0].get("rec"), "attempt": {"c": att["c"], "k": att["k"], "ab": att["ab"]},
